@@ -168,8 +168,9 @@ Lemma prn_label_zassoc prnmap na id :
 Proof. unfold prn_label. now rewrite zassoc_zlookup. Qed.
 
 Lemma sig_label_zassoc sigmap na (rinex:bool) id :
-  (let sgc := match zassoc id sigmap with Some p => p | None => (na, na) end in
-   if rinex then snd sgc else fst sgc) = sig_label sigmap na rinex id.
+  (if rinex then snd match zassoc id sigmap with Some p => p | None => (na, na) end
+            else fst match zassoc id sigmap with Some p => p | None => (na, na) end)
+  = sig_label sigmap na rinex id.
 Proof.
   unfold sig_label. rewrite zassoc_zlookup. destruct (zlookup id sigmap) as [[band code]|]; cbn; [reflexivity|].
   now destruct rinex.
@@ -280,6 +281,46 @@ Proof.
 Qed.
 
 (* ====================== _getsatcellmaps ====================== *)
+Lemma number_eq_map {A B} (f:A -> B) (h:list A) :
+  combine (map (fun k => Z.of_nat k + 1) (seq 0 (List.length h))) (map f h) = number (map f h).
+Proof. rewrite <- number_eq, map_length. reflexivity. Qed.
+
+(* the cell loop, for arbitrary satellite / signal label lists *)
+Lemma cellmap_build {A B} (L:list A) (S:list B) c : 0 <= c ->
+  combine (map (fun k => Z.of_nat k + 1)
+            (seq 0 (List.length
+               (filter (fun '(idx, _) => Z.testbit c (Z.of_nat (List.length L) * Z.of_nat (List.length S) - idx))
+                  (combine (map (fun k => Z.of_nat k + 1)
+                              (seq 0 (List.length (flat_map (fun s => map (fun g => (s, g)) S) L))))
+                           (flat_map (fun s => map (fun g => (s, g)) S) L))))))
+          (map snd
+             (filter (fun '(idx, _) => Z.testbit c (Z.of_nat (List.length L) * Z.of_nat (List.length S) - idx))
+                (combine (map (fun k => Z.of_nat k + 1)
+                            (seq 0 (List.length (flat_map (fun s => map (fun g => (s, g)) S) L))))
+                         (flat_map (fun s => map (fun g => (s, g)) S) L))))
+  = number (cells L S c).
+Proof.
+  intro Rc. fold (cell_pairs L S). rewrite number_eq_map, (number_eq (cell_pairs L S)). f_equal.
+  pose (F := fun idx => Z.testbit c (Z.of_nat (List.length L) * Z.of_nat (List.length S) - idx)).
+  rewrite (filter_ext _ (fun p => F (fst p))) by (intros [i x]; reflexivity).
+  unfold number. rewrite (filter_combine_select F). unfold F.
+  rewrite <- Nat2Z.inj_mul, cell_pairs_length, <- mask_bits_testbit by exact Rc.
+  reflexivity.
+Qed.
+
+Lemma cells_map {A B C D} (f:A -> C) (g:B -> D) sats sigs c :
+  cells (map f sats) (map g sigs) c = map (fun '(s, x) => (f s, g x)) (cells sats sigs c).
+Proof.
+  unfold cells. rewrite cell_pairs_map, select_map, !map_length.
+  apply map_ext. intros [s x]. reflexivity.
+Qed.
+
+(* the two scan loops of _getsatcellmaps *)
+Lemma scan_sat a : 0 <= a < 2^64 -> filter (fun idx => Z.testbit a (64 - idx)) (zrange 65) = sat_ids a.
+Proof. exact (scan_positions 64 64 a eq_refl). Qed.
+Lemma scan_sig b : 0 <= b < 2^32 -> filter (fun idx => Z.testbit b (32 - idx)) (zrange 33) = sig_ids b.
+Proof. exact (scan_positions 32 32 b eq_refl). Qed.
+
 Section Maps.
 Variable T : tables.
 
@@ -292,6 +333,165 @@ Theorem getsatcellmaps_spec ident o a b c prnmap sigmap :
                   (spec_cellmap prnmap sigmap (t_na T) (negb (o_labelmsm o =? 2)) a b c)).
 Proof.
   intros Ha Hb Hc Hk Ra Rb Rc. unfold getsatcellmaps. rewrite Hk, Ha, Hb, Hc. cbn [obind].
-  Show.
-Abort.
+  rewrite (scan_sat a Ra), (scan_sig b Rb).
+  rewrite (map_ext _ (prn_label prnmap (t_na T)) (prn_label_zassoc prnmap (t_na T))).
+  rewrite (map_ext _ (sig_label sigmap (t_na T) (negb (o_labelmsm o =? 2)))
+                     (sig_label_zassoc sigmap (t_na T) (negb (o_labelmsm o =? 2)))).
+  rewrite cellmap_build by exact Rc.
+  rewrite number_eq, cells_map. unfold spec_satmap, spec_cellmap. reflexivity.
+Qed.
 End Maps.
+
+(* ====================== consequences: counts ====================== *)
+Theorem satmap_length prnmap na a : List.length (spec_satmap prnmap na a) = List.length (sat_ids a).
+Proof. unfold spec_satmap. now rewrite number_length, map_length. Qed.
+
+Lemma cells_length {A B} (sats:list A) (sigs:list B) c :
+  List.length (cells sats sigs c) = List.length (positions (mask_bits (List.length sats * List.length sigs) c)).
+Proof.
+  unfold cells. apply select_length. unfold mask_bits. now rewrite bits_of_length, cell_pairs_length.
+Qed.
+
+Theorem cellmap_length prnmap sigmap na rinex a b c :
+  List.length (spec_cellmap prnmap sigmap na rinex a b c) =
+  List.length (positions (mask_bits (List.length (sat_ids a) * List.length (sig_ids b)) c)).
+Proof. unfold spec_cellmap. now rewrite number_length, map_length, cells_length. Qed.
+
+(* NSat, NSig: set_single stores popcount of the decoded mask bits *)
+Theorem nsat_popcount prnmap na a : 0 <= a < 2^64 ->
+  popcount (Z.to_N a) = Z.of_nat (List.length (spec_satmap prnmap na a)).
+Proof.
+  intro Ra. rewrite satmap_length. unfold sat_ids, mask_bits.
+  apply popcount_positions. apply (to_N_lt_pow2 a 64). exact Ra.
+Qed.
+
+Theorem nsig_popcount b : 0 <= b < 2^32 -> popcount (Z.to_N b) = Z.of_nat (List.length (sig_ids b)).
+Proof.
+  intro Rb. unfold sig_ids, mask_bits. apply popcount_positions. apply (to_N_lt_pow2 b 32). exact Rb.
+Qed.
+
+(* NCell: the decoded DF396 has exactly NSat*NSig bits *)
+Theorem ncell_popcount prnmap sigmap na rinex a b c :
+  0 <= c < 2^Z.of_nat (List.length (sat_ids a) * List.length (sig_ids b)) ->
+  popcount (Z.to_N c) = Z.of_nat (List.length (spec_cellmap prnmap sigmap na rinex a b c)).
+Proof.
+  intro Rc. rewrite cellmap_length. unfold mask_bits. apply popcount_positions. now apply to_N_lt_pow2.
+Qed.
+
+(* a DF396 value wider than NSat*NSig bits (cannot be decoded, but harmless): the excess high bits are ignored *)
+Theorem cellmap_low_bits prnmap sigmap na rinex a b c : 0 <= c ->
+  spec_cellmap prnmap sigmap na rinex a b (c mod 2^Z.of_nat (List.length (sat_ids a) * List.length (sig_ids b)))
+  = spec_cellmap prnmap sigmap na rinex a b c.
+Proof. intro Rc. unfold spec_cellmap, cells. now rewrite mask_bits_mod. Qed.
+
+Theorem ncell_popcount_low prnmap sigmap na rinex a b c : 0 <= c ->
+  popcount (Z.to_N (c mod 2^Z.of_nat (List.length (sat_ids a) * List.length (sig_ids b))))
+  = Z.of_nat (List.length (spec_cellmap prnmap sigmap na rinex a b c)).
+Proof.
+  intro Rc. rewrite <- (cellmap_low_bits prnmap sigmap na rinex a b c Rc).
+  apply ncell_popcount. apply Z.mod_pos_bound. apply Z.pow_pos_nonneg; lia.
+Qed.
+
+(* ids found by the scans are in range *)
+Theorem sat_ids_range a id : In id (sat_ids a) -> 1 <= id <= 64.
+Proof. intro H. apply positions_range in H. unfold mask_bits in H. rewrite bits_of_length in H. lia. Qed.
+Theorem sig_ids_range b id : In id (sig_ids b) -> 1 <= id <= 32.
+Proof. intro H. apply positions_range in H. unfold mask_bits in H. rewrite bits_of_length in H. lia. Qed.
+
+(* ====================== consequences: the i-th entry ====================== *)
+(* satellite entry k+1 is labelled with the PRN of the (k+1)-th set bit of DF394, counted from the MSB *)
+Theorem satmap_nth prnmap na a (k:nat) : (k < List.length (sat_ids a))%nat ->
+  zassoc (Z.of_nat k + 1) (spec_satmap prnmap na a) = Some (prn_label prnmap na (nth k (sat_ids a) 0)).
+Proof.
+  intro H. unfold spec_satmap. rewrite (zassoc_number_nth _ k (prn_label prnmap na 0)) by (now rewrite map_length).
+  now rewrite map_nth.
+Qed.
+
+Theorem satmap_outside prnmap na a i : i < 1 \/ Z.of_nat (List.length (sat_ids a)) < i ->
+  zassoc i (spec_satmap prnmap na a) = None.
+Proof. intro H. unfold spec_satmap. apply zassoc_number_none. now rewrite map_length. Qed.
+
+(* the k-th selected cell (0-based k) is the grid entry under the k-th set bit; in the satellite-major grid
+   that entry is (satellite q / nsig, signal q mod nsig) for the 0-based bit index q *)
+Lemma cells_nth {A B} (sats:list A) (sigs:list B) c (k:nat) ds dg :
+  (k < List.length (positions (mask_bits (List.length sats * List.length sigs) c)))%nat ->
+  let q := Z.to_nat (nth k (positions (mask_bits (List.length sats * List.length sigs) c)) 0 - 1) in
+  (q < List.length sats * List.length sigs)%nat /\
+  nth k (cells sats sigs c) (ds, dg) = (nth (q / List.length sigs) sats ds, nth (q mod List.length sigs) sigs dg).
+Proof.
+  intros Hk q.
+  set (bs := mask_bits (List.length sats * List.length sigs) c) in *.
+  assert (Lb: List.length bs = (List.length sats * List.length sigs)%nat) by (unfold bs, mask_bits; apply bits_of_length).
+  assert (Hq: (q < List.length sats * List.length sigs)%nat).
+  { pose proof (positions_range bs _ (nth_In _ 0 Hk)) as R. unfold q. lia. }
+  split; [exact Hq|].
+  unfold cells. fold bs. rewrite (select_positions bs _ (ds, dg)) by (rewrite cell_pairs_length; lia).
+  set (f := fun p => nth (Z.to_nat (p - 1)) (cell_pairs sats sigs) (ds, dg)).
+  rewrite (nth_indep _ _ (f 0)) by (now rewrite map_length). rewrite map_nth. unfold f. fold q.
+  now apply cell_pairs_nth.
+Qed.
+
+Theorem cellmap_nth prnmap sigmap na rinex a b c (k:nat) :
+  let nsat := List.length (sat_ids a) in
+  let nsig := List.length (sig_ids b) in
+  let setbits := positions (mask_bits (nsat * nsig) c) in
+  (k < List.length setbits)%nat ->
+  let q := Z.to_nat (nth k setbits 0 - 1) in            (* 0-based index of the (k+1)-th set bit of DF396 *)
+  (q / nsig < nsat)%nat /\ (q mod nsig < nsig)%nat /\
+  zassoc (Z.of_nat k + 1) (spec_cellmap prnmap sigmap na rinex a b c) =
+    Some (prn_label prnmap na (nth (q / nsig) (sat_ids a) 0),
+          sig_label sigmap na rinex (nth (q mod nsig) (sig_ids b) 0)).
+Proof.
+  intros nsat nsig setbits Hk q.
+  destruct (cells_nth (sat_ids a) (sig_ids b) c k 0 0 Hk) as [Hq Hn]. fold nsat nsig setbits q in Hq, Hn.
+  assert (N0: nsig <> O) by (intro E; rewrite E in Hq; lia).
+  split; [apply Nat.div_lt_upper_bound; [exact N0|lia]|].
+  split; [now apply Nat.mod_upper_bound|].
+  unfold spec_cellmap.
+  set (F := fun '(s, g) => (prn_label prnmap na s, sig_label sigmap na rinex g)).
+  rewrite (zassoc_number_nth _ k (F (0, 0))) by (rewrite map_length, cells_length; exact Hk).
+  rewrite map_nth, Hn. reflexivity.
+Qed.
+
+Theorem cellmap_outside prnmap sigmap na rinex a b c i :
+  i < 1 \/ Z.of_nat (List.length (positions (mask_bits (List.length (sat_ids a) * List.length (sig_ids b)) c))) < i ->
+  zassoc i (spec_cellmap prnmap sigmap na rinex a b c) = None.
+Proof. intro H. unfold spec_cellmap. apply zassoc_number_none. now rewrite map_length, cells_length. Qed.
+
+(* ====================== labels ====================== *)
+Lemma zlookup_absent {A} id (tab:list (Z*A)) : ~ In id (map fst tab) -> zlookup id tab = None.
+Proof.
+  unfold zlookup. induction tab as [|[k v] tab IH]; intro H; [reflexivity|].
+  cbn [find fst]. destruct (Z.eqb_spec k id) as [E|E].
+  - exfalso. apply H. left. exact E.
+  - apply IH. intro H'. apply H. right. exact H'.
+Qed.
+
+(* an id the constellation's table does not define is labelled exactly NA, under both label options *)
+Theorem label_default prnmap sigmap na id :
+  (~ In id (map fst prnmap) -> prn_label prnmap na id = na) /\
+  (~ In id (map fst sigmap) -> forall rinex, sig_label sigmap na rinex id = na).
+Proof.
+  split.
+  - intro H. unfold prn_label. now rewrite zlookup_absent.
+  - intros H rinex. unfold sig_label. now rewrite zlookup_absent.
+Qed.
+
+Theorem label_default_zassoc prnmap sigmap na id :
+  (zassoc id prnmap = None -> prn_label prnmap na id = na) /\
+  (zassoc id sigmap = None -> forall rinex, sig_label sigmap na rinex id = na).
+Proof.
+  split.
+  - intro H. unfold prn_label. now rewrite <- zassoc_zlookup, H.
+  - intros H rinex. unfold sig_label. now rewrite <- zassoc_zlookup, H.
+Qed.
+
+Theorem label_defined prnmap sigmap na id :
+  (forall s, zassoc id prnmap = Some s -> prn_label prnmap na id = s) /\
+  (forall band code, zassoc id sigmap = Some (band, code) ->
+     sig_label sigmap na true id = code /\ sig_label sigmap na false id = band).
+Proof.
+  split.
+  - intros s H. unfold prn_label. now rewrite <- zassoc_zlookup, H.
+  - intros band code H. unfold sig_label. now rewrite <- zassoc_zlookup, H.
+Qed.
